@@ -1,17 +1,18 @@
 # fibersim build: libfiber from /repo's working tree, instrumented with the TSan
 # compiler ABI (no libtsan), linked with our own runtime.
+V := $(patsubst %/,%,$(dir $(abspath $(lastword $(MAKEFILE_LIST)))))
 REPO ?= /repo
-B ?= /verif/build
+B ?= $(V)/build
 CC = gcc
 ICF = -O2 -g -DNDEBUG -std=gnu11 -fsanitize=thread --param=tsan-instrument-func-entry-exit=0 \
-      -DFIBER_FAST_SWITCHING -DFIBER_STACK_MALLOC -DLIBFIBER_VERIF -I$(REPO)/include -I/verif/sim -Wall -Wno-unused-function -Wno-unused-variable
-RCF = -O2 -g -std=gnu11 -I/verif/sim -Wall -Wno-unused-result
+      -DFIBER_FAST_SWITCHING -DFIBER_STACK_MALLOC -DLIBFIBER_VERIF -I$(REPO)/include -I$(V)/sim -Wall -Wno-unused-function -Wno-unused-variable
+RCF = -O2 -g -std=gnu11 -I$(V)/sim -Wall -Wno-unused-result
 LIBSRCS = fiber_context fiber_manager fiber_mutex fiber_semaphore fiber_spinlock fiber_cond fiber fiber_barrier \
           fiber_io fiber_rwlock hazard_pointer work_stealing_deque work_queue fiber_scheduler_wsd fiber_event_native
 LIBOBJS = $(patsubst %,$(B)/lib/%.o,$(LIBSRCS))
 RTOBJS = $(B)/rt/sim.o $(B)/rt/kernel.o $(B)/rt/lin.o $(B)/rt/glue.o
 WRAP = -Wl,--wrap=pthread_create,--wrap=pthread_join,--wrap=dlsym,--wrap=epoll_create,--wrap=epoll_create1,--wrap=epoll_ctl,--wrap=epoll_wait,--wrap=timerfd_create,--wrap=timerfd_settime,--wrap=getrlimit,--wrap=setsockopt,--wrap=getsockopt,--wrap=fiber_scheduler_schedule,--wrap=fiber_scheduler_next,--wrap=wsd_work_stealing_deque_push_bottom,--wrap=wsd_work_stealing_deque_pop_bottom,--wrap=wsd_work_stealing_deque_steal,--wrap=hazard_pointer_scan,--wrap=fiber_manager_get,--wrap=fiber_spinlock_lock,--wrap=fiber_spinlock_trylock,--wrap=fiber_spinlock_unlock
-HARNESSES = $(patsubst /verif/harness/%.c,%,$(wildcard /verif/harness/c*.c))
+HARNESSES = $(patsubst $(V)/harness/%.c,%,$(wildcard $(V)/harness/c*.c))
 BINS = $(patsubst %,$(B)/h_%,$(HARNESSES))
 
 all: $(BINS)
@@ -19,16 +20,16 @@ all: $(BINS)
 $(B)/lib/%.o: $(REPO)/src/%.c
 	@mkdir -p $(B)/lib
 	$(CC) $(ICF) -w -MMD -MP -c $< -o $@
-$(B)/rt/glue.o: /verif/sim/glue.c
+$(B)/rt/glue.o: $(V)/sim/glue.c
 	@mkdir -p $(B)/rt
 	$(CC) $(ICF) -MMD -MP -c $< -o $@
-$(B)/rt/%.o: /verif/sim/%.c /verif/sim/sim.h /verif/sim/simint.h
+$(B)/rt/%.o: $(V)/sim/%.c $(V)/sim/sim.h $(V)/sim/simint.h
 	@mkdir -p $(B)/rt
 	$(CC) $(RCF) -c $< -o $@
-$(B)/hobj/%.o: /verif/harness/%.c /verif/sim/sim.h /verif/harness/common.h
+$(B)/hobj/%.o: $(V)/harness/%.c $(V)/sim/sim.h $(V)/harness/common.h
 	@mkdir -p $(B)/hobj
 	$(CC) $(ICF) -MMD -MP -c $< -o $@
-$(B)/hobj/regshim.o: /verif/harness/regshim.S
+$(B)/hobj/regshim.o: $(V)/harness/regshim.S
 	@mkdir -p $(B)/hobj
 	$(CC) -c $< -o $@
 $(B)/h_%: $(B)/hobj/%.o $(LIBOBJS) $(RTOBJS) $(B)/hobj/regshim.o
